@@ -1,6 +1,8 @@
 INIT TraceInit
 NEXT TraceNext
-CONSTANT CheckLines = TRUE
+CONSTANTS
+  CheckLines = TRUE
+  Pinned = FALSE
 CONSTRAINT Accepted
 POSTCONDITION Post
 CHECK_DEADLOCK FALSE
